@@ -67,10 +67,75 @@ func newStorage(backend string) (app.Storage, func()) {
 
 var backends = []string{"mem", "fs", "fsbin", "pg"}
 
+// addLangPager: a multi-page node whose browse labels are translated to texts of other
+// lengths, plus a node that switches the language each time it is visited — so that
+// paginated pages are rendered before and after a language switch within one session.
+func addLangPager(t *rapid.T, a *app.App) {
+	addPager(t, a)
+	a.Syms = append(a.Syms, app.Sym{Name: "setl", Results: []app.Result{
+		{Content: []string{"nor", "swa"}[uniformN(t, 2, "l1")], FlagSet: []uint32{7}},
+		{Content: []string{"swa", "nor", "eng"}[uniformN(t, 3, "l2")], FlagSet: []uint32{7}},
+		{Content: "nor", FlagSet: []uint32{7}}}})
+	a.Nodes = append(a.Nodes, app.Node{Name: "setlang", Tpl: "language set", Code: []app.Instr{
+		{Op: refdec.LOAD, Sym: "setl", Num: 0}, {Op: refdec.HALT}, {Op: refdec.INCMP, Sym: "_", Sel: "*"}}})
+	for ni := range a.Nodes {
+		n := &a.Nodes[ni]
+		if n.Name == "pager" || n.Name == "_catch" || n.Name == "setlang" {
+			continue
+		}
+		for i, in := range n.Code {
+			if in.Op == refdec.HALT {
+				code := append([]app.Instr{}, n.Code[:i+1]...)
+				code = append(code, app.Instr{Op: refdec.INCMP, Sym: "setlang", Sel: "8"})
+				n.Code = append(code, n.Code[i+1:]...)
+				break
+			}
+		}
+	}
+	texts := []string{"n", "neste side", "forrige", "ukurasa unaofuata kabisa", "nyuma", "x"}
+	for _, code := range []string{"nor", "swa"} {
+		tr := a.TransFor(code)
+		if tr == nil {
+			a.Trans = append(a.Trans, app.Trans{Lang: code, Templates: map[string]string{}, Menus: map[string]string{}, Statics: map[string]string{}})
+			tr = &a.Trans[len(a.Trans)-1]
+		}
+		if tr.Menus == nil {
+			tr.Menus = map[string]string{}
+		}
+		tr.Menus["to_next"] = texts[uniformN(t, len(texts), "nexttext")]
+		tr.Menus["to_prev"] = texts[uniformN(t, len(texts), "prevtext")]
+	}
+}
+
 func genC07(t *rapid.T) C07Case {
 	o := fullOpts
 	o.Sloppy = chancePct(t, 20, "sloppy")
 	a := GenApp(t, o)
+	if chancePct(t, 30, "langpager") {
+		addLangPager(t, a)
+		// a history that visits the pager, switches the language and comes back
+		h := []string{""}
+		blocks := 2 + uniformN(t, 4, "lpblocks")
+		for b := 0; b < blocks; b++ {
+			switch uniformN(t, 3, "lpblock") {
+			case 0, 1: // visit the pager, browse, leave
+				h = append(h, "9")
+				for k := uniformN(t, 4, "lpnext"); k > 0; k-- {
+					h = append(h, "11")
+				}
+				if chancePct(t, 30, "lpprev") {
+					h = append(h, "22")
+				}
+				h = append(h, []string{"0", "1", "0"}[uniformN(t, 3, "lpleave")])
+			default: // switch the language
+				h = append(h, "8", "x")
+			}
+			if chancePct(t, 15, "lpjunk") {
+				h = append(h, []string{"x", "zz", "", "11"}[uniformN(t, 4, "lpjunkv")])
+			}
+		}
+		return C07Case{App: a, Inputs: toBS(h), Backend: backends[uniformN(t, len(backends), "backend")]}
+	}
 	return C07Case{
 		App:     a,
 		Inputs:  toBS(GenHistory(t, a, HistOpts{MaxLen: 10, Junk: true, Long: true})),
@@ -176,9 +241,8 @@ func checkC07(c C07Case) (o Outcome) {
 		if ls.ExecErr != "" || !ls.Cont {
 			break // end of the session (or of what is specified after an execution error)
 		}
-		if ls.FlushErr != "" {
-			break
-		}
+		// a failed render (e.g. the page does not fit) is an error for that request only:
+		// the session lives on and both modes must keep agreeing
 		// what a later request can observe: position, language, client flags, cached values
 		la, pa := ls.After, ps.After
 		if la != nil && pa != nil {
@@ -280,6 +344,9 @@ func snapshotRoundTrip(s *app.Session) *Violation {
 }
 
 func snapshotHasInvalidUTF8(s *app.Snapshot) bool {
+	if !utf8.ValidString(s.Last) {
+		return true
+	}
 	for _, f := range s.Frames {
 		for k, v := range f {
 			if !utf8.ValidString(k) || !utf8.ValidString(v) {
